@@ -220,7 +220,6 @@ func (fg *FnGen) bumpClockForPhis(fr *Frame, h *ssa.BasicBlock) {
 	fg.allocs = []*Term{c}
 }
 
-
 // advanceClock introduces a fresh clock value not below the current one.
 func (fg *FnGen) advanceClock() *Term {
 	if fg.noDefs {
